@@ -57,6 +57,12 @@ type MapV struct {
 	kt   types.Type
 }
 
+type strIter struct {
+	s   Str
+	i   int
+	off *Term
+}
+
 type mapIter struct {
 	m *MapV
 	i int
